@@ -12,6 +12,7 @@ from engine.util import own_nodes, calls_with_nodes, where
 from rules.c06 import check_operator_table
 
 RULES = {
+    "R-07.12": "an immutable record set stays immutable through the algebra: every copying form that ImmutableRdataset overrides (copy, __copy__, union, intersection, difference, symmetric_difference - all six must be overridden) returns ImmutableRdataset(<the superclass result>); a bare super() result is a plain mutable Rdataset derived from a frozen one",
     "R-07.11": "record-set equality compares the whole identity: Rdataset.__eq__ refuses on every field that Rdataset.match() takes (class, type, covered type) and then compares the members (super().__eq__); RRset.__eq__ adds the owner name and delegates to it - a dropped field makes an `example. CH A` question equal to `example. IN A` (dns.message.is_response compares questions with it)",
     "R-07.10": "the `self is other` shortcuts of dns.set.Set obey the idempotence laws: s|s = s and s&s = s (nothing to do), s-s = s^s = {} (clear), s<=s and s>=s (True); isdisjoint(s, s) is True only for the empty set, so it has no constant shortcut",
     "R-07.1": "Name, every Rdata subclass and their helper value classes carry @dns.immutable.immutable",
@@ -508,6 +509,18 @@ def run(model, rep, tier):
     rets_rr = [r for r in ast.walk(rr.node) if isinstance(r, ast.Return)]
     rep.check(name_cmp and _deleg(rets_rr), "R-07.11", rr.qualname, where(rr, rr.node), "owner names must agree; then Rdataset.__eq__ decides",
               "RRset.__eq__ no longer (refuses on different owner names and then delegates to Rdataset.__eq__)", stmt="eq-identity")
+    # ---------------------------------------------------------------- R-07.12
+    irc = model.cls("dns.rdataset.ImmutableRdataset")
+    for mn12 in ("copy", "__copy__", "union", "intersection", "difference", "symmetric_difference"):
+        fm12 = irc.methods.get(mn12)
+        if fm12 is None:
+            rep.bad("R-07.12", f"dns.rdataset.ImmutableRdataset.{mn12}", irc.file, f"ImmutableRdataset no longer overrides {mn12}(): the inherited form returns a plain mutable Rdataset", stmt="rewrapped")
+            continue
+        rets12 = [r for r in ast.walk(fm12.node) if isinstance(r, ast.Return)]
+        okk12 = bool(rets12) and all(r.value is not None and isinstance(r.value, ast.Call) and src(r.value.func) == "ImmutableRdataset" for r in rets12)
+        rep.check(okk12, "R-07.12", fm12.qualname, where(fm12, fm12.node), "returns ImmutableRdataset(...)",
+                  f"{mn12}() of an immutable record set returns `{src(rets12[0].value)[:50] if rets12 and rets12[0].value is not None else 'nothing'}`, not an ImmutableRdataset: add()/update_ttl()/clear() succeed on a value derived from a frozen set", stmt="rewrapped")
+    rep.assume("callers do not re-run initialisers on live objects (obj.__init__(...), obj.__setstate__(...)) or use object.__setattr__: dns._immutable_ctx opens the attribute window for the duration of __init__, whoever calls it")
     rep.meta["explanation"] = (
         "Decorator census over all value classes, provenance classification (reaching definitions) of every field store in their constructors, "
         "operator-table and shape rules for equality/hash/order, aliasing-guard dominance in Set, and write-before-raise analysis of Rdataset.add. "
@@ -515,6 +528,10 @@ def run(model, rep, tier):
 
 
 WITNESSES = [
+    {"id": "c07-immutable-difference-not-rewrapped", "rule": "R-07.12", "file": "dns/rdataset.py", "expect": "fires",
+     "old": "        return ImmutableRdataset(super().difference(other))  # pyright: ignore", "new": "        return super().difference(other)"},
+    {"id": "c07-twin-immutable-difference-via-local", "rule": "R-07.12", "file": "dns/rdataset.py", "expect": "silent",
+     "old": "        return ImmutableRdataset(super().difference(other))  # pyright: ignore", "new": "        result = super().difference(other)\n        return ImmutableRdataset(result)"},
     {"id": "c07-isdisjoint-identity-shortcut", "rule": "R-07.10", "file": "dns/set.py", "expect": "fires",
      "old": "        for item in other.items:\n            if item in self.items:\n                return False\n        return True", "new": "        if self is other:\n            return False\n        for item in other.items:\n            if item in self.items:\n                return False\n        return True"},
     {"id": "c07-difference-update-identity-noop", "rule": "R-07.10", "file": "dns/set.py", "expect": "fires",
